@@ -180,9 +180,21 @@ SCENARIOS.update({
         call2=dict(main='/proj/src/main.asm', idirs=['/proj/src', '/proj/lib2'], cwd='/proj/run'),
         ref=dict(main='/proj/src/main.asm', idirs=[], cwd='/proj/run')),
 })
+SCENARIOS.update({
+    # a file reached through -i includes bytes that sit next to it; a same-named file sits next to the top-level source
+    'nested_include_bytes_behind_idir': dict(
+        files={'/proj/src/main.asm': ['top:', 'dd K0', 'include drivers/dev.asm', 'j top'],
+               '/proj/src/main2.asm': ['top:', 'dd K0', 'include ../vendor/drivers/dev.asm', 'j top'],
+               '/proj/vendor/drivers/dev.asm': ['dev:', 'include_bytes blob.bin', 'dw dev'],
+               '/proj/vendor/drivers/blob.bin': b'inner4\x12\x11',
+               '/proj/src/blob.bin': b'OUTER!\x12\x11'},
+        call1=None, edits=[],
+        call2=dict(main='/proj/src/main.asm', idirs=['/proj/vendor'], cwd='/proj/run'),
+        ref=dict(main='/proj/src/main2.asm', idirs=[], cwd='/proj/run')),
+})
 BY_PROP = {
-    'C10': ['relative_idir_bytes', 'relative_idir_bytes_only_cwd', 'blob_rewritten', 'include_bytes_removed'],
-    'C14': ['includer_in_first_idir', 'same_idir_twice', 'idir_is_source_dir', 'relative_idir_include', 'dotdot_idir_include', 'idir_switch', 'nested_edit', 'shadow_appears', 'source_text_then_path', 'failed_nested_then_created', 'failed_then_idir_added'],
+    'C10': ['nested_include_bytes_behind_idir', 'relative_idir_bytes', 'relative_idir_bytes_only_cwd', 'blob_rewritten', 'include_bytes_removed'],
+    'C14': ['nested_include_bytes_behind_idir', 'includer_in_first_idir', 'same_idir_twice', 'idir_is_source_dir', 'relative_idir_include', 'dotdot_idir_include', 'idir_switch', 'nested_edit', 'shadow_appears', 'source_text_then_path', 'failed_nested_then_created', 'failed_then_idir_added'],
     'C15': ['include_removed', 'nested_include_removed', 'include_bytes_removed', 'same_text_other_project_error'],
     'C16': list(SCENARIOS),
 }
